@@ -44,6 +44,7 @@ fn run<S: shared::src_trait::Src>(harness: &str, src: &mut S) -> Outcome {
         "c17_description_reply" => r_c17::description(src),
         "c17_stringset_deserialize" => r_c17::stringset(src, true),
         "c17_stringset_serialize" => r_c17::stringset(src, false),
+        "c17_stringset_serialize_empty" => r_c17::stringset_empty(),
         _ => Outcome {
             reproduced: false,
             role: String::new(),
